@@ -269,3 +269,19 @@ PROPS["C06"] = _bisync({
 PROPS["C15"]["units"].append(dict(template="units/bisync.rs", slice=["run_bisync"], ignore_clauses={"run_bisync": [r"record_ok", r"conflict_names_free", r"conflict_name_not_planned"]}))
 PROPS["C15"]["clauses"]["bisync --dry-run"] = "run_bisync: opts.dry_run ==> the world (files and effect log) is unchanged"
 PROPS["C15"]["trusted"] = COMMON_TRUST + PATH_TRUST + WORLD_TRUST
+
+SERVE_TWIN = dict(name="serve_sessions", repo_fn="src/bin/copia/serve.rs", quick=1, thorough=1, needs_cli=True,
+                  contract="13 deterministic sessions against one or two real `copia serve` processes on one root (interleavings forced by withholding content, holding the commit flock, or strace delay injection): refused Puts keep the stream in step, no path escapes, short content + EOF terminates, bad prologue touches nothing, oversize frame rejected, exactly one of two racing CAS Puts commits, committed means live, overlapping Puts never publish mixed bytes, Delete during Put loses nothing, leftover staging is not published, hash mismatch changes nothing, Get announces what it streams")
+SERVE_TRUST = COMMON_TRUST + [
+    "Kani 0.68 + CBMC 6.11 for cas_decide (complete, loop-free, arbitrary 32-byte hashes) on the unedited wire.rs",
+    "fs2 flock gives mutual exclusion across server processes; the standard argument 'atomic sections under one lock + CAS at lock acquisition ==> linearizable' is stated, not mechanised",
+]
+def _serve(pid, clauses, only_re, not_decided):
+    return dict(level="proof", units=[], kani=[dict(harness="c03_cas_decide_is_equality", repo_fn="src/bin/copia/wire.rs cas_decide",
+                                                      desc="cas_decide(current, expected) == Commit <=> current == expected (None = absent), arbitrary hashes")] if pid == "C03" else [],
+                twins=[dict(SERVE_TWIN, only_re=only_re)], fallback_searches=["serve"], fallback_only_re=only_re, clauses=clauses,
+                trusted=SERVE_TRUST, assumptions=["served tree without symlinks leading outside"], not_decided=not_decided)
+PROPS["C03"] = _serve("C03", {"cas_decide": "Commit <=> current == expected (Kani, complete)"}, r"\(C03", ["interleavings themselves are not explored by a verifier; the session twin forces the named schedules only"])
+PROPS["C10"] = _serve("C10", {}, r"\(C10", ["kill points inside the kernel"])
+PROPS["C11"] = _serve("C11", {}, r"\(C11", ["std::path parsing itself (assumed component grammar)"])
+PROPS["C12"] = _serve("C12", {}, r"\(C12|\(C11/C12", ["ciborium internals; behaviour under a real rlimit"])
